@@ -11,6 +11,7 @@
    black-box (parse_buf, parse_file, is_onnx_model, Model::load) in child processes.
 4. Trace_Proto.tla validates the recorded trace: the ProtoContract predicates decide."""
 import json
+import os
 
 import vlib
 
@@ -39,7 +40,60 @@ def run(ctx):
     ctx.cov["candidate_prints"] = ncand
     ctx.harness("vh-load", ["proto", "--out", trace, "--cands", cands], timeout=3000)
     res = ctx.tlc_trace(SPEC, CFG, trace, timeout=3000, heap="12g")
+    if not ctx.quick or os.environ.get("VERIF_SELFTEST"):
+        selftest(ctx, trace)
     finish(ctx, trace, res, len(distinct))
+
+
+def selftest(ctx, trace):
+    """Binding self-test: corrupt recorded events of VALID inputs and require Trace_Proto to reject them."""
+    groups = []  # (case record, [other records])
+    with open(trace) as f:
+        for line in f:
+            r = json.loads(line)
+            if r["ev"] == "case":
+                groups.append((r, []))
+            else:
+                groups[-1][1].append(r)
+    done = set()
+    out = []
+    for c, rs in groups:
+        if c["gen"].startswith("valid:") and len(done) < 4:
+            rs = [dict(r) for r in rs]
+            ops = [r for r in rs if r["ev"] == "op" and r["p0"] != [] and not r["k"].endswith("_begin")]
+            ends = [r for r in rs if r["ev"] == "end"]
+            if "backwards" not in done and ops:
+                ops[0]["p1"] = []          # the reader went back to offset 0
+                done.add("backwards")
+            elif "panic" not in done and ends:
+                ends[0]["outcome"] = "panic"
+                done.add("panic")
+            elif "accepted" not in done and ops:
+                o = [r for r in ops if r["k"] in ("skip", "bytes", "string") and r["ok"]]
+                if o:
+                    o[0]["len"] = [0, 0, 1]  # an accepted length of 2^30 in a small input
+                    done.add("accepted")
+            elif "nonlinear" not in done and ops:
+                k = rs.index(ops[0])
+                rs = rs[:k] + [dict(ops[0]) for _ in range(4 * c["n"] + 40)] + rs[k:]
+                done.add("nonlinear")
+        if c["gen"].startswith("valid:") or len(out) < 3000:
+            out.append(c)
+            out.extend(rs)
+    st = ctx.path("selftest.ndjson")
+    with open(st, "w") as f:
+        for k, r in enumerate(out):
+            r["seq"] = k + 1
+            f.write(json.dumps(r) + "\n")
+    res = ctx.tlc_trace(SPEC, CFG, st, timeout=1800)
+    got = set((b["sig"]["class"], b["sig"]["cause"]) for b in res["bad"])
+    want = [("position moved backwards", ""), ("panic", ""), ("overlong length accepted", "read len>remaining"),
+            ("nonlinear", "")]
+    missing = [w for w in want if w not in got]
+    ctx.cov["binding_selftest"] = {"corruptions": sorted(done), "rejected": [list(w) for w in want if w in got]}
+    if missing or len(done) < 4:
+        raise vlib.ToolError("binding self-test failed: corrupted trace not rejected for %s (applied %s)" % (missing, sorted(done)))
+    ctx.log("binding self-test: 4 corrupted events of valid inputs rejected by Trace_Proto")
 
 
 def finish(ctx, trace, res, ncand):
@@ -81,8 +135,8 @@ def finish(ctx, trace, res, ncand):
         assumptions=[
             "traced apis observe the decoder through the public ReadValue trait beneath LimitReader; "
             "parse_buf/parse_file/is_onnx_model/Model::load are observed black-box (outcome only)",
-            "non-termination is observed as > 0.5 s (re-run: > 1 s) of CPU time on inputs of < 1 KB, or as more "
-            "than OpBound(n) = 4n+16 reader operations in the traced runs",
+            "non-termination is observed as > 0.3 s of CPU time (twice: in the batch and re-run alone) on inputs of "
+            "< 1 KB, or as more than OpBound(n) = 4n+16 reader operations in the traced runs",
             "children run with RLIMIT_AS = 8 GiB: an allocation failure is the decoder asking for > 8 GiB for an input of < 1 KB",
             "Model::load failures are judged only when a traced run of the same input shows a decoder-level cause",
         ],
